@@ -11,7 +11,20 @@ import (
 
 var st *vstat.Stats
 
+// envDecoy is an HTTP proxy that the environment of this process names (HTTP_PROXY / HTTPS_PROXY, set before anything can
+// read them): where a request goes is decided by forwarder's configuration alone, so nobody ever contacts it.
+var envDecoy *Peer
+
 func TestMain(m *testing.M) {
+	if p, err := StartPeer("ENV", "127.0.0.10", nil, HTTPHandler(proxyResponder("ENV"), TunnelTo(nil))); err == nil {
+		envDecoy = p
+		os.Setenv("HTTP_PROXY", "http://"+p.Addr)
+		os.Setenv("HTTPS_PROXY", "http://"+p.Addr)
+		os.Setenv("http_proxy", "http://"+p.Addr)
+		os.Setenv("https_proxy", "http://"+p.Addr)
+		os.Unsetenv("NO_PROXY")
+		os.Unsetenv("no_proxy")
+	}
 	st = vstat.New()
 	code := m.Run()
 	st.Flush()
